@@ -524,7 +524,7 @@ def _finish(prop_id, prop, tier, seed, t0, results, known, fixed, replay_notes, 
 
 
 def _write_evidence(prop_id, ev):
-    d = os.path.join(VERIF, "evidence")
+    d = os.environ.get("VERIF_EVIDENCE_DIR") or os.path.join(VERIF, "evidence")  # sweeps against seeded changes write elsewhere
     os.makedirs(d, exist_ok=True)
     fn = os.path.join(d, "%s.json" % prop_id)
     try:
